@@ -143,7 +143,7 @@ def run(chk):
     chk.rule = RULE
     usage, same = usage_formats()
     for k in fw.known_findings("C18"):
-        if k["status"] == "open":
+        if k["status"] == "open" and "ops" in k["replay"]:
             ans = fw.run_oracle(k["replay"]["ops"], "c18kf")
             if all(("ok" in a) == exp for a, exp in zip(ans, k["replay"]["accepted"])) if "accepted" in k["replay"] else \
                [[w["name"] for w in a.get("writes", [])] for a in ans] == k["replay"]["writes"]:
